@@ -248,7 +248,10 @@ static void gen_conf_file(plan_t *p, rng_t *r, const char *name, int allow_exec,
             }
             else if (c < 72 && vars) add("%%put(k%d v%d)\n", rng_range(r, 0, 3), rng_range(r, 0, 9));
             else if (c < 78 && vars) {
-                switch (rng_below(r, 6)) {
+                switch (rng_below(r, 9)) {
+                case 6: add("%%put('a\" b' one)\n"); break;                                        /* a name with a quote and a blank in it: sorts in front of the k's */
+                case 7: add("%%put(\"a\\\\\" b)\n"); break;                                      /* two words to the counter, one unterminated word to the splitter: the value comes back NULL and the variable is deleted */
+                case 8: add("x %%get('a\" b' none) %%get(k%d) y\n", rng_range(r, 0, 4)); break;
                 case 0: add("x %%get(k%d dflt) y\n", rng_range(r, 0, 4)); break;                 /* the variable exists: the default is dropped */
                 case 1: add("x %%get(k%d 'a b') y\n", rng_range(r, 0, 4)); break;
                 case 2: add("%%put(k%d %%get(k%d d))\n", rng_range(r, 0, 3), rng_range(r, 0, 4)); break;
